@@ -43,9 +43,20 @@ func Scrub(b []byte) []byte {
 	for _, pattern := range scrubberPatterns {
 		// this is a workaround since go does not yet support look ahead or look
 		// behind for regular expressions.
-		scrubbedBytes = pattern.ReplaceAllFunc(scrubbedBytes, func(b []byte) []byte {
-			return addressRegexp.ReplaceAll(b, []byte("[scrubbed]"))
-		})
+		// A match consumes its right-hand delimiter, which may also be the
+		// left-hand delimiter of the next address ("1.2.3.4 5.6.7.8", or two
+		// lines that each start with an address), so one pass is not enough:
+		// repeat until nothing changes. Each pass that changes something
+		// removes at least one address, so this terminates.
+		for {
+			next := pattern.ReplaceAllFunc(scrubbedBytes, func(b []byte) []byte {
+				return addressRegexp.ReplaceAll(b, []byte("[scrubbed]"))
+			})
+			if bytes.Equal(next, scrubbedBytes) {
+				break
+			}
+			scrubbedBytes = next
+		}
 	}
 	return scrubbedBytes
 }
